@@ -189,6 +189,11 @@ func (m *mModel) removeDups() {
 // ---- operations ----
 
 type mOp struct {
+	// callerReqs / callerUses: the list objects the simulated caller owns and hands to a bulk setter. The
+	// caller keeps them: it passes the same objects to its other file, may pass them again later, and
+	// expects to find them as it left them.
+	callerReqs []*modfile.Require
+	callerUses []*modfile.Use
 	name       string
 	a, b, c, d string
 	flag       bool
@@ -461,6 +466,50 @@ func (m *mModel) apply(o mOp) {
 	}
 }
 
+// callerLists builds the list objects a caller would own for a bulk operation.
+func (o *mOp) callerLists() {
+	switch o.name {
+	case "SetRequire", "SetRequireSeparateIndirect":
+		o.callerReqs = []*modfile.Require{}
+		for _, e := range o.reqs {
+			o.callerReqs = append(o.callerReqs, &modfile.Require{Mod: module.Version{Path: e.a, Version: e.b}, Indirect: e.indirect})
+		}
+	case "SetUse":
+		o.callerUses = []*modfile.Use{}
+		for _, e := range o.reqs {
+			o.callerUses = append(o.callerUses, &modfile.Use{Path: e.a})
+		}
+	}
+}
+
+// callerListsIntact reports how the caller's lists differ from what the caller put there ("" if not).
+// Syntax is not compared: it is documented as ignored on input and the caller never looks at it.
+func (o *mOp) callerListsIntact() string {
+	if o.callerReqs != nil {
+		if len(o.callerReqs) != len(o.reqs) {
+			return fmt.Sprintf("the list has %d entries, the caller put %d", len(o.callerReqs), len(o.reqs))
+		}
+		for i, e := range o.reqs {
+			r := o.callerReqs[i]
+			if r == nil || r.Mod.Path != e.a || r.Mod.Version != e.b || r.Indirect != e.indirect {
+				return fmt.Sprintf("entry %d was {%s %s indirect=%v} and is now %+v", i, e.a, e.b, e.indirect, r)
+			}
+		}
+	}
+	if o.callerUses != nil {
+		if len(o.callerUses) != len(o.reqs) {
+			return fmt.Sprintf("the list has %d entries, the caller put %d", len(o.callerUses), len(o.reqs))
+		}
+		for i, e := range o.reqs {
+			u := o.callerUses[i]
+			if u == nil || u.Path != e.a {
+				return fmt.Sprintf("entry %d was {%s} and is now %+v", i, e.a, u)
+			}
+		}
+	}
+	return ""
+}
+
 // ---- the real file behind one interface ----
 
 type realFile struct {
@@ -538,9 +587,11 @@ func (r *realFile) apply(o mOp) (err error) {
 		case "Cleanup":
 			w.Cleanup()
 		case "SetUse":
-			var us []*modfile.Use
-			for _, e := range o.reqs {
-				us = append(us, &modfile.Use{Path: e.a})
+			us := o.callerUses
+			if us == nil {
+				for _, e := range o.reqs {
+					us = append(us, &modfile.Use{Path: e.a})
+				}
 			}
 			w.SetUse(us)
 		default:
@@ -591,9 +642,11 @@ func (r *realFile) apply(o mOp) (err error) {
 	case "Cleanup":
 		f.Cleanup()
 	case "SetRequire", "SetRequireSeparateIndirect":
-		var rs []*modfile.Require
-		for _, e := range o.reqs {
-			rs = append(rs, &modfile.Require{Mod: module.Version{Path: e.a, Version: e.b}, Indirect: e.indirect})
+		rs := o.callerReqs
+		if rs == nil {
+			for _, e := range o.reqs {
+				rs = append(rs, &modfile.Require{Mod: module.Version{Path: e.a, Version: e.b}, Indirect: e.indirect})
+			}
 		}
 		if o.name == "SetRequire" {
 			f.SetRequire(rs)
